@@ -1,6 +1,7 @@
 From Coq Require Import List NArith ZArith Bool Sorted Permutation.
-From V.gen Require Consts.
+From V.gen Require Consts DialErrors.
 From V.C10 Require Import Model Proofs.
+From V.C10 Require ErrNames.
 Import ListNotations.
 From V.C10 Require Import Properties.
 Check (C10_bound :
@@ -22,15 +23,34 @@ Check (C10_listen_monotone :
   forall c l1 l2 a, incl l1 l2 -> is_local c l2 a = false -> is_local c l1 a = false).
 Check (C10_remembered_acceptable :
   forall c k L0 h p s a z,
-    Forall (op_wf (acceptable c L0)) h ->
-    get p (bk (fst (run c k (mkState [] L0 0) h))) = Some s -> In (a, z) s ->
+    Forall (op_ok c L0) h ->
+    get p (bk (fst (run c k (mkState [] L0 0 []) h))) = Some s -> In (a, z) s ->
     (supported c a = true /\ is_local c L0 a = false /\ last a (Other 0) = P2p p) /\
     (enabled c (route c a) = true /\
      exists ho port, parse (route c a) a = Some (ho, port, Some p) /\
                      host_unspecified ho = false)).
+Check (C10_remembered_dialable :
+  forall c k L0 h p s a z,
+    Forall (op_weak c) h ->
+    get p (bk (fst (run c k (mkState [] L0 0 []) h))) = Some s -> In (a, z) s ->
+    last a (Other 0) = P2p p /\ enabled c (route c a) = true /\
+    exists ho port, parse (route c a) a = Some (ho, port, Some p)).
+Check (C10_dial_address_filter :
+  forall c st a t q,
+    dial_addr_check c st a = DAOk t q ->
+    free_capacity c st 0 <> None /\
+    existsb (maddr_eqb a) (listen_set c (lst st)) = false /\
+    route c a = t /\
+    (last a (Other 0) = P2p q /\ enabled c (route c a) = true /\
+     exists ho port, parse (route c a) a = Some (ho, port, Some q))).
+Check (C10_supported_implies_dial_address :
+  forall c st a,
+    supported c a = true -> free_capacity c st 0 <> None ->
+    existsb (maddr_eqb a) (listen_set c (lst st)) = false ->
+    exists q, last a (Other 0) = P2p q /\ dial_addr_check c st a = DAOk (route c a) q).
 Check (C10_step_preserves :
   forall c k L0 st o,
-    StInv k L0 (acceptable c L0) st -> op_wf (acceptable c L0) o ->
+    StInv k L0 (acceptable c L0) st -> op_ok c L0 o ->
     StInv k L0 (acceptable c L0) (fst (step c k st o))).
 Check (C10_evict_min :
   forall k s a sc v w,
@@ -63,6 +83,10 @@ Check (C10_rescore_exact :
 Check (C10_rediscovery_keeps :
   forall k s l victims,
   (forall a, In a l -> find a s <> None) -> insert_all k s l victims = (s, false)).
+Check (C10_additions_keep_scores :
+  forall k s l vs b z,
+  NoDup (keys s) -> (length s + length l <= cap k)%nat -> find b s = Some z ->
+  find b (fst (insert_all k s l vs)) = Some z /\ snd (insert_all k s l vs) = false).
 Check (C10_dial_order :
   forall limit s,
   let r := addresses limit s in
@@ -81,8 +105,8 @@ Check (C10_dial_order_validator_sound :
 Check (C10_dial_order_validator_complete :
   forall limit s, NoDup (keys s) -> addresses_ok limit s (addresses limit s) = true).
 Check (C10_dial_tries :
-  forall c k st peer outcome tcp ws t w st',
-  step c k st (ODial peer outcome tcp ws) = (st', RDial (DTried t w)) ->
+  forall c k st peer outcome errs tcp ws t w st',
+  step c k st (ODial peer outcome errs tcp ws) = (st', RDial (DTried t w)) ->
   let s := get_or_empty peer (bk st) in
   exists limit,
     free_capacity c st (length s) = Some limit /\
@@ -92,7 +116,7 @@ Check (C10_dial_tries :
     Permutation (merge_desc t w) (t ++ w) /\
     Forall (fun a => In a (keys s) /\ names peer a = true /\ route c a = TTcp /\ enabled c TTcp = true) tcp /\
     Forall (fun a => In a (keys s) /\ names peer a = true /\ route c a = TWs /\ enabled c TWs = true) ws /\
-    st' = set_bk st (put peer (dial_outcome k s peer outcome tcp ws) (bk st))).
+    st' = set_bk st (put peer (dial_outcome k s peer outcome errs tcp ws) (bk st))).
 Check (C10_free_capacity :
   forall c st n limit,
   free_capacity c st n = Some limit ->
@@ -101,18 +125,116 @@ Check (C10_free_capacity :
   | None => limit = n
   end).
 Check (C10_dial_all_fail :
-  forall k s peer tcp ws b,
-  NoDup (keys s) -> (forall a, In a (tcp ++ ws) -> In a (keys s)) -> sc_failure k <> 0%Z ->
-  find b (dial_outcome k s peer 0 tcp ws) =
-    if existsb (maddr_eqb b) (tcp ++ ws) then Some (sc_failure k) else find b s).
+  forall k s peer errs tcp ws b,
+  NoDup (keys s) -> NoDup (tcp ++ ws) -> (forall a, In a (tcp ++ ws) -> In a (keys s)) ->
+  (forall e, error_score k e <> 0%Z) ->
+  find b (dial_outcome k s peer 0 errs tcp ws) =
+    match lookup_err b (tag_errs errs 0 tcp ++ tag_errs errs (length tcp) ws) with
+    | Some e => Some (error_score k e)
+    | None => find b s
+    end).
 Check (C10_dial_success :
-  forall k s peer l j a b,
-  NoDup (keys s) -> (forall x, In x l -> In x (keys s)) ->
-  nth_error l j = Some a -> names peer a = true ->
-  sc_failure k <> 0%Z -> sc_established k <> 0%Z ->
+  forall k s peer l j a e0 b,
+  NoDup (keys s) -> NoDup (map fst l) -> (forall x, In x (map fst l) -> In x (keys s)) ->
+  nth_error l j = Some (a, e0) -> names peer a = true ->
+  (forall e, error_score k e <> 0%Z) -> sc_established k <> 0%Z ->
   find b (succeed_at k s peer l j) =
     if maddr_eqb b a then Some (sc_established k)
-    else if existsb (maddr_eqb b) (firstn j l) then Some (sc_failure k) else find b s).
+    else match lookup_err b (firstn j l) with
+         | Some e => Some (error_score k e)
+         | None => find b s
+         end).
+Check (C10_error_variants_in_sync :
+  ErrNames.model_variants = DialErrors.variants /\ ErrNames.model_gates = DialErrors.gates).
+Check (C10_store_sites_in_sync :
+  ErrNames.model_store_sites = DialErrors.store_sites).
+Check (C10_error_kinds_enumerated :
+  forall e, In e all_dial_errors /\ err_of_code (err_code e) = Some e).
+Check (C10_error_score_negative :
+  forall e, (error_score default_scores e < 0)%Z /\ in_i32 (error_score default_scores e)).
+Check (C10_address_error_only_banned :
+  forall e, error_score default_scores e = I32_MIN <-> exists ae, e = EAddress ae).
+Check (C10_error_score_table :
+  forall e, error_score default_scores e =
+    if is_address_error e then (- Z.of_N Consts.SCORE_ADDRESS_FAILURE_NEG)%Z
+    else (- Z.of_N Consts.SCORE_CONNECTION_FAILURE_NEG)%Z).
+Check (C10_success_score_positive :
+  (0 < sc_established default_scores)%Z /\ in_i32 (sc_established default_scores) /\
+  (0 <= bonus default_scores)%Z).
+Check (C10_failure_rescores_any_kind :
+  forall s a e v z0,
+  find a s = Some z0 ->
+  let sc := error_score default_scores e in
+  let s' := fst (insert default_scores s a sc v) in
+  (sc < 0)%Z /\ snd (insert default_scores s a sc v) = Updated /\
+  find a s' = Some sc /\ keys s' = keys s /\ forall b, b <> a -> find b s' = find b s).
+Check (C10_dial_failure_step :
+  forall c k st a e v p z0,
+  last a (Other 0) = P2p p -> find a (get_or_empty p (bk st)) = Some z0 -> error_score k e <> 0%Z ->
+  let s := get_or_empty p (bk st) in
+  let st' := fst (step c k st (ODialFailure a e v)) in
+  (exists s', get p (bk st') = Some s' /\ find a s' = Some (error_score k e) /\ keys s' = keys s /\
+              forall b, b <> a -> find b s' = find b s) /\
+  (forall q, q <> p -> get q (bk st') = get q (bk st)) /\
+  lst st' = lst st /\ held st' = held st /\ pubs st' = pubs st).
+Check (C10_established_step :
+  forall c k st peer a v z0,
+  find (with_peer peer a) (get_or_empty peer (bk st)) = Some z0 -> sc_established k <> 0%Z ->
+  let s := get_or_empty peer (bk st) in
+  let st' := fst (step c k st (OEstablished peer a false v)) in
+  (exists s', get peer (bk st') = Some s' /\ find (with_peer peer a) s' = Some (sc_established k) /\
+              keys s' = keys s /\ forall b, b <> with_peer peer a -> find b s' = find b s) /\
+  (forall q, q <> peer -> get q (bk st') = get q (bk st)) /\
+  lst st' = lst st /\ held st' = held st /\ pubs st' = pubs st).
+Check (C10_dial_address_known_step :
+  forall c k st a res vs t q z0,
+  dial_addr_check c st a = DAOk t q -> find a (get_or_empty q (bk st)) = Some z0 ->
+  let sc := match res with Some e => error_score k e | None => sc_established k end in
+  sc <> 0%Z ->
+  let s := get_or_empty q (bk st) in
+  let st' := fst (step c k st (ODialAddr a res vs)) in
+  (exists s', get q (bk st') = Some s' /\ find a s' = Some sc /\ keys s' = keys s /\
+              forall b, b <> a -> find b s' = find b s) /\
+  (forall p, p <> q -> get p (bk st') = get p (bk st)) /\
+  lst st' = lst st /\ held st' = held st /\ pubs st' = pubs st).
+Check (C10_dial_address_new_step :
+  forall c k st a res vs t q,
+  dial_addr_check c st a = DAOk t q -> find a (get_or_empty q (bk st)) = None ->
+  (length (get_or_empty q (bk st)) < cap k)%nat ->
+  let sc := match res with Some e => error_score k e | None => sc_established k end in
+  sc <> 0%Z ->
+  let s := get_or_empty q (bk st) in
+  let st' := fst (step c k st (ODialAddr a res vs)) in
+  (exists s', get q (bk st') = Some s' /\ find a s' = Some sc /\ keys s' = keys s ++ [a] /\
+              forall b, b <> a -> find b s' = find b s) /\
+  (forall p, p <> q -> get p (bk st') = get p (bk st))).
+Check (C10_saturation :
+  forall a b,
+  in_i32 (sat_add a b) /\
+  ((a + b <= I32_MIN)%Z -> sat_add a b = I32_MIN) /\
+  ((I32_MAX <= a + b)%Z -> sat_add a b = I32_MAX) /\
+  ((I32_MIN <= a + b <= I32_MAX)%Z -> sat_add a b = (a + b)%Z)).
+Check (C10_scores_in_i32 :
+  forall c h p s a z,
+  Forall op_i32 h -> get p (bk (final c default_scores h)) = Some s -> In (a, z) s -> in_i32 z).
+Check (C10_public_addresses_local :
+  forall c k h a, In a (pubs (final c k h)) ->
+    a <> [] /\ last a (Other 0) = P2p (local_peer c)).
+Check (C10_public_add :
+  forall c ps a,
+  match snd (public_add c ps a) with
+  | PubEmpty => a = [] /\ fst (public_add c ps a) = ps
+  | PubDifferent => (exists q, last a (Other 0) = P2p q /\ q <> local_peer c) /\ fst (public_add c ps a) = ps
+  | PubAdded new =>
+      a <> [] /\ pub_ok c (public_form c a) /\
+      new = negb (existsb (maddr_eqb (public_form c a)) ps) /\
+      fst (public_add c ps a) = if new then ps ++ [public_form c a] else ps
+  end).
+Check (C10_public_remove :
+  forall a l x, NoDup l -> (In x (remove_addr a l) <-> In x l /\ x <> a)).
+Check (C10_listen_set :
+  forall c ls a,
+  In a (listen_set c ls) <-> exists l, In l ls /\ (a = l \/ a = l ++ [P2p (local_peer c)])).
 Check (C10_choice_resolvable :
   forall k s a sc, NoDup (keys s) -> (1 <= cap k)%nat ->
   snd (insert k s a sc (pick_min s)) <> BadChoice).
